@@ -17,9 +17,10 @@ def run(ctx):
     ctx.rule = ("frame table: one row per (opcode, mask, payload length); stream machine: one replayed behaviour per (frame lengths, set of cut positions) "
                 "path of the TLC state graph; distinct = rows + behaviours; non-trivial = length >= 126 or at least one cut inside a frame")
     ctx.assumptions += ["payload bytes and the XOR masking are exercised with random content by the harness; the specification abstracts them to positions",
-                        "frames are final (FIN=1), unfragmented, as the library builds them"]
+                        "frames are final (FIN=1), unfragmented, as the library builds them - except the one scripted fragmented message (open finding ws-continuation-frame-desync)"]
     frame_table(ctx, H)
     stream_machine(ctx, H)
+    fragmented_message(ctx, H)
 
 
 class FakeRequest:
@@ -153,6 +154,37 @@ def frame_table(ctx, H):
                 ctx.fail("frame table rejected by TLC", dict(text=r.violation["text"][:400]))
     finally:
         shutil.rmtree(wd, ignore_errors=True)
+
+
+def fragmented_message(ctx, H):
+    """A client that fragments a message (RFC 6455 5.4): Text with FIN = 0, then a continuation frame (opcode 0) with FIN = 1, then ordinary frames.  Whatever the
+    endpoint is told about the two fragments, the frames BEHIND them are client frames like any other: delivered exactly once, in order, and nothing escapes."""
+    def mk(b0, payload, key=b"\x11\x22\x33\x44"):
+        return bytes([b0, 0x80 | len(payload)]) + key + bytes(b ^ key[i % 4] for i, b in enumerate(payload))
+    stream = mk(0x01, b"Hel") + mk(0x80, b"lo") + mk(0x81, b"next") + mk(0x82, b"bin")
+    for cuts in ([len(stream)], [1] * len(stream), [9, 8, len(stream)]):
+        delivered = []
+
+        class Endpt:
+            @staticmethod
+            def callback(ws, opcode, payload):
+                delivered.append((opcode, bytes(payload) if isinstance(payload, (bytes, bytearray)) else payload))
+        buf = H.WebSocketTemporaryRingBuffer(FakeRequest())
+        h = H.WebSocketTemporaryHandler(("h", 1), {}, {}, buf, Endpt)
+        p, errs = 0, []
+        for n in cuts:
+            try:
+                h(stream[p:p + n])
+            except Exception as e:
+                errs.append(type(e).__name__)
+            p += n
+        tail = [d for d in delivered if d in ((H.WebSocketOpCode.Text, "next"), (H.WebSocketOpCode.Binary, b"bin"))]
+        ctx.case(("fragmented", tuple(cuts[:3])))
+        if errs or tail != [(H.WebSocketOpCode.Text, "next"), (H.WebSocketOpCode.Binary, b"bin")]:
+            ctx.fail("a fragmented client message (Text FIN=0 'Hel', continuation FIN=1 'lo') followed by Text 'next' and Binary 'bin', read in chunks %s: the handler raised %s and delivered %s - "
+                     "WebSocketOpCode has no member for opcode 0, parseHeader raises after two bytes were consumed and the stream loses its frame boundaries"
+                     % (cuts[:3], sorted(set(errs)) or "nothing", [(getattr(o, "value", o), x) for o, x in delivered]), dict(cuts=cuts[:3], errors=errs[:4]), sig="ws-continuation-frame-desync")
+            return
 
 
 def stream_machine(ctx, H):
